@@ -1196,6 +1196,39 @@ end Total
 /-- the relation "the real `x` is the rational `q`" -/
 abbrev RCast : ℚ → ℝ → Prop := fun q x => x = (q : ℝ)
 
+theorem ratSqrt?_spec {q s : ℚ} (h : ratSqrt? q = some s) : 0 ≤ (q : ℝ) ∧ Real.sqrt (q : ℝ) = (s : ℝ) := by
+  unfold ratSqrt? at h
+  split at h
+  · exact absurd h (by simp)
+  · rename_i hq
+    simp only at h
+    split at h
+    · rename_i hsq
+      simp only [Option.some.injEq] at h
+      simp only [Bool.and_eq_true, beq_iff_eq] at hsq
+      have hq0 : 0 ≤ q := not_lt.1 hq
+      have hq0R : 0 ≤ (q : ℝ) := by exact_mod_cast hq0
+      refine ⟨hq0R, ?_⟩
+      have hnum : (q.num.toNat : ℤ) = q.num := Int.toNat_of_nonneg (Rat.num_nonneg.2 hq0)
+      have hden : (0 : ℝ) < (Nat.sqrt q.den : ℝ) := by
+        have : 0 < Nat.sqrt q.den := by
+          rcases Nat.eq_zero_or_pos (Nat.sqrt q.den) with h0 | h0
+          · have := hsq.2; rw [h0] at this; exact absurd this.symm (by simp [q.den_ne_zero])
+          · exact h0
+        exact_mod_cast this
+      have hs0 : 0 ≤ (s : ℝ) := by
+        rw [← h]; push_cast; positivity
+      rw [Real.sqrt_eq_iff_mul_self_eq hq0R hs0, ← h]
+      push_cast
+      have e1 : ((Nat.sqrt q.num.toNat : ℝ)) * (Nat.sqrt q.num.toNat : ℝ) = (q.num : ℝ) := by
+        have : ((Nat.sqrt q.num.toNat * Nat.sqrt q.num.toNat : ℕ) : ℤ) = q.num := by rw [hsq.1]; exact hnum
+        exact_mod_cast this
+      have e2 : ((Nat.sqrt q.den : ℝ)) * (Nat.sqrt q.den : ℝ) = (q.den : ℝ) := by exact_mod_cast hsq.2
+      have hqd : (q : ℝ) = (q.num : ℝ) / (q.den : ℝ) := by
+        exact Rat.cast_def (K := ℝ) q
+      rw [hqd, div_mul_div_comm, e1, e2]
+    · exact absurd h (by simp)
+
 theorem ratSign_cast (q : ℚ) : ((ratSign q : ℚ) : ℝ) = (SignType.sign (q : ℝ) : ℝ) := by
   unfold ratSign
   rcases lt_trichotomy q 0 with h | h | h
@@ -1308,6 +1341,10 @@ theorem Alg.rat_real : AlgRel RCast Alg.rat Alg.real where
       show ((⌈(a : ℝ)⌉ : ℤ) : ℝ) = ((a.ceil : ℚ) : ℝ)
       rw [Rat.ceil_cast, rat_ceil_eq]
       simp
+    · simp only [Alg.real, Option.some.injEq] at hf hg
+      subst hf; subst hg
+      obtain ⟨h0, hs⟩ := ratSqrt?_spec hx
+      exact ⟨Real.sqrt (a : ℝ), by simp only [if_pos h0], hs⟩
     · exact absurd hf (by simp)
   pow := by
     rintro n a _ x rfl h
